@@ -139,6 +139,10 @@ Proof.
   rewrite Hfrom, Hleader_val. cbn [negb].
   assert (Hr1 : (if r_blk r =? 0 then r else touch r) = r) by (destruct (r_blk r =? 0); [reflexivity|now apply held_touch]).
   rewrite Hr1.
+  (* the leader's message names the leader as proposer and is sent by the leader: nothing stored keeps it out *)
+  assert (Hk : keeps r m = false).
+  { apply keeps_consistent. rewrite Hfrom. destruct Hm as [[-> _]|[-> _]]; reflexivity. }
+  rewrite Hk. cbn [negb andb].
   assert (Hq : m_qc m = ecert ph) by (destruct Hm as [[-> ->]|[-> ->]]; reflexivity).
   assert (Hs : m_sigok m = true) by (destruct Hm as [[-> _]|[-> _]]; reflexivity).
   assert (Hp : m_phase m = ph + 1) by (destruct Hm as [[-> ->]|[-> ->]]; reflexivity).
